@@ -4,13 +4,17 @@ C06 - cost is the stated loss of the model trajectory against the data  (PARTIAL
 Proof side (Pygom/Props/C06.lean): the shape decision tree of `_setWeight_or_spread` (`broadcast_spec`,
 `broadcast_accepts_iff`), column selection by state name in the order given (`solution_selection`), the
 cost as the sum over observations and observed states of the per-entry kernel (`cost_is_loss`), zero
-square cost at the truth (`square_cost_zero_at_truth`).
+square cost at the truth (`square_cost_zero_at_truth`); the values a loss object holds over a history of calls
+(`Held`, `step`, `outputs`: `unrollState_target`, `unrollState_other`, `earlier_outputs_unaffected`,
+`atStored_reproduces`, `output_depends_on_held_values_only`).
 
 Tie: (i) `BaseLoss._setWeight_or_spread`, `get_state_index` and `_setParam` against the Lean driver (`broadcast`,
 `sensIndex`, `setParam`) exactly, on integer inputs, accepted and rejected shapes; (ii) DIRECT ORACLE, no Lean, no pygom
 kernel/integrator/evaluator (see losscommon.py): `cost`, `residual`, `costIV` of the real loss objects
 against scipy.stats log-densities / squared weighted residuals of an independent DOP853 (1e-12) trajectory
-of the right-hand side the Lean driver assembled (random models) or a hand-written one (catalogue models).
+of the right-hand side the Lean driver assembled (random models) or a hand-written one (catalogue models);
+(iii) HISTORY cases (losshist.py, same direct oracle): scripts of calls of all eleven entry points on one or two loss
+objects, judged against the reference for the values the object currently holds - see the docstring there.
 """
 import json
 import random
@@ -18,20 +22,30 @@ import random
 import numpy as np
 
 from . import losscommon as LC
+from . import losshist as LH
 
 PROP = "C06"
 LEAN = {"module": "Pygom.Props.C06",
         "required": ["Pygom.C06.broadcast_spec", "Pygom.C06.broadcast_accepts_iff", "Pygom.C06.solution_selection",
-                     "Pygom.C06.theta_bound_by_name", "Pygom.C06.cost_is_loss", "Pygom.C06.square_cost_zero_at_truth"]}
-BUDGET = {"quick": {"cases": 1000, "broadcast": 50, "per_batch": 40},
-          "thorough": {"cases": 40000, "broadcast": 600, "per_batch": 60}}
+                     "Pygom.C06.theta_bound_by_name", "Pygom.C06.cost_is_loss", "Pygom.C06.square_cost_zero_at_truth",
+                     "Pygom.C06.unrollState_target", "Pygom.C06.unrollState_other", "Pygom.C06.earlier_outputs_unaffected",
+                     "Pygom.C06.atStored_reproduces", "Pygom.C06.output_depends_on_held_values_only"]}
+BUDGET = {"quick": {"cases": 1000, "broadcast": 50, "per_batch": 40, "history": 704},
+          "thorough": {"cases": 40000, "broadcast": 600, "per_batch": 60, "history": 7040}}
 RULE = ("random bounded models (gen_model, autonomous, 2-4 states, 1-4 parameters, short horizons) and catalogue models "
         "(SIR, SEIR, Lotka_Volterra, FitzHugh); theta, x0, uniform / non-uniform grids of 3-7 observation times; 1-3 observed "
         "states in random order; five loss classes with default / scalar / per-state / per-observation / full-matrix spread; "
         "weights in every accepted shape; target_param subsets in any order, target_state subsets for costIV; observations = "
         "reference trajectory (zero at truth) or perturbed positive / integer-valued data; plus a stream of integer weight "
         "arguments in accepted and rejected shapes.  A loss case is non-trivial when the reference trajectory exists and at "
-        "least one class was evaluated; a broadcast batch always is.")
+        "least one class was evaluated; a broadcast batch always is.  HISTORY cases (losshist.py): scripts of 6-14 operations on "
+        "one or two loss objects - every ordered pair (e1 in cost / residual / costIV / residualIV, e2 in the eleven entry points "
+        "cost residual diff_loss sensitivity gradient jac costIV residualIV diff_lossIV sensitivityIV jacIV) as 'e1 at (A,X); e2 at "
+        "another theta and/or x0; e1 again; restore; e1 again; e1 with theta=None', random walks, the user re-assigning "
+        "model.parameters between calls, two loss objects on one model object (the second built mid-script), two model instances "
+        "with the same names, copy.deepcopy of a loss object; all four combinations of target_param / target_state; t0 != 0; "
+        "theta as list / tuple / ndarray / numpy scalars; y, x0, t, weights, spread as float or int containers.  A history case "
+        "is non-trivial when at least two calls were judged against the reference for the values the object currently holds.")
 ASSUMPTIONS = ["scipy's integrators (lsoda at rtol = atol = 1e-10 inside pygom) approximate the flow: validated per case against an "
                "independent DOP853 reference at 1e-12; tolerance = 1e-6 x (sum of absolute per-entry loss terms) + the change of the reference "
                "cost when the prediction moves by 1e-7 x (1 + |yhat|) (losscommon.cost_tolerance)",
@@ -40,7 +54,11 @@ ASSUMPTIONS = ["scipy's integrators (lsoda at rtol = atol = 1e-10 inside pygom) 
                "a (p,1)-shaped 2-D weight argument with p != 1 is outside the documented shapes (Lean lemma broadcast_column_quirk)",
                "trajectory rows are the flow at the observation times (C02 rows_correct), parameters are bound by name (C09): "
                "hypotheses of cost_is_loss",
-               "the per-entry kernels are those of C14 (Gen/Kernels.lean); the array glue of the kernels is checked here end to end"]
+               "the per-entry kernels are those of C14 (Gen/Kernels.lean); the array glue of the kernels is checked here end to end",
+               "history cases: the Lean model takes cost / residual / costIV as pure functions of (theta, x0, data, layout); the loss object "
+               "is read as holding the parameter values and initial values it was last given (constructor or any entry point), parameters "
+               "outside target_param are the model object's current values, and building a loss object does not change the model's "
+               "parameter values (specification state machine in losshist.py)"]
 TRUSTED = ["harness generator and reference: scipy.integrate.solve_ivp(DOP853), scipy.stats log-densities",
            "right-hand side of the reference: Lean driver `assemble` output (C01) compiled by losscommon.compile_rhs; hand-written "
            "for catalogue models", "Lean driver JSON codec"]
@@ -99,11 +117,16 @@ def make_cases(rng, tier, budget):
     for i in range(budget["broadcast"]):
         r = random.Random(rng.getrandbits(64))
         cases.append(_broadcast_case(r, budget["per_batch"]))
+    shift = 8 * rng.randrange(1000)                 # the systematic part (pairs of entry points) starts somewhere else for every seed
+    for i in range(budget.get("history", 0)):
+        r = random.Random(rng.getrandbits(64))
+        cases.append(LH.gen_history(r, i + shift, HIST_JUDGED))
     return cases
 
 
 def search_cases(rng, tier, budget):
-    return [_loss_case(random.Random(rng.getrandbits(64))) for _ in range(budget["cases"] * 2)]
+    return ([_loss_case(random.Random(rng.getrandbits(64))) for _ in range(budget["cases"] * 2)] +
+            [LH.gen_history(random.Random(rng.getrandbits(64)), i, HIST_JUDGED) for i in range(budget.get("history", 0) * 2)])
 
 
 # --------------------------------------------------------------------------- broadcast stream
@@ -339,7 +362,49 @@ def run_loss(case):
                        "weights": case["weights"][0], "times": s["times"], "worst_error_over_tolerance": max(margins)}}
 
 
+# --------------------------------------------------------------------------- history cases (losshist.py)
+
+HIST_JUDGED = ["cost", "residual", "costIV", "residualIV"]
+
+
+def judge_history(ev):
+    """cost / costIV / residual / residualIV against the reference FOR THE VALUES THE OBJECT CURRENTLY HOLDS.
+    The Lean model (Loss.cost, cost_is_loss) is a pure function of (theta, x0, data, layout): after any history of
+    calls the result may depend on nothing but the current values."""
+    d, spec, fn = ev["d"], ev["spec"], ev["fn"]
+    cls = spec["cls"]
+    yhat = ev["ctx"].traj(ev["th"], ev["x0"])[:, d["idx"]]
+    out = []
+    if fn in ("cost", "costIV"):
+        ref = LC.ref_cost(cls, d["y"], yhat, d["W"], d["spread"])
+        tol = LC.cost_tolerance(cls, d["y"], yhat, d["W"], d["spread"])
+        got = ev["got"]
+        if not np.isscalar(got) and np.size(got) != 1:
+            return [{"what": "%s of %sLoss is not a number" % (fn, cls), "class": "not-scalar", "detail": repr(got)[:200]}]
+        got = float(np.asarray(got, float).ravel()[0])
+        if not np.isfinite(got) or abs(got - ref) > tol:
+            out.append({"what": "%s of %sLoss is not the %s loss of the reference trajectory for the values the object holds" % (fn, cls, cls),
+                        "detail": "got %r expected %r (tolerance %g)" % (got, ref, tol)})
+    else:
+        exp = (d["y"] - yhat) * d["W"]
+        res = np.asarray(ev["got"], float)
+        if res.size == exp.size:
+            res = res.reshape(exp.shape)
+        if not LC.rel_close(res, exp, 1e-6, 1e-7 * (1.0 + float(np.abs(exp).max()))):
+            out.append({"what": "%s of %sLoss is not (y - reference) * w for the values the object holds" % (fn, cls),
+                        "detail": "got %s expected %s" % (np.asarray(res).tolist(), exp.tolist())})
+    return out
+
+
+def run_history(case):
+    r = LH.execute(case, judge_history, HIST_JUDGED)
+    r["sample"] = {"kind": "history", "family": case["family"], "ops": [(o.get("fn") or o["op"]) for o in case["ops"]]}
+    return r
+
+
 def run_case(case):
     if case["kind"] == "broadcast":
         return run_broadcast(case)
+    if case["kind"] == "history":
+        return run_history(case)
     return run_loss(case)
